@@ -12,7 +12,7 @@ PROP = 'C09'
 LEVEL = 'exploration'
 SHARDS = {'quick': 4, 'thorough': 16}
 TIMEOUT = {'quick': 300, 'thorough': 3000}
-N = {'quick': 4, 'thorough': 7}
+N = {'quick': 4, 'thorough': 10}
 RULE = ('cases: every grid-world shape with extents 0..N per axis (DiscreteWorld), LineWorld(1..N), GridWorld(1..N, 1..N); per shape every '
         'in-range coordinate triple and, per axis and side, every just-outside triple (-1 / one past the end, other axes in range). '
         'Oracle: ids (discrete_grid_pos_to_id with the world\'s extents) are pairwise distinct and exactly 0..cells-1; cells["pos"][id] '
@@ -23,7 +23,7 @@ FLOORS = {'quick': {'shapes': 72, 'cells_checked': 720, 'outside_probes': 2000, 
                     'grid_worlds': 8, 'reach:Environments.DiscreteWorld.get_cell': 2700, 'reach:Environments.discrete_grid_pos_to_id': 1400},
           'thorough': {'shapes': 500, 'cells_checked': 20000}}
 EXHAUSTIVE = {'quick': 'all grid shapes with extents 0..4 (125 DiscreteWorld, 4 LineWorld, 16 GridWorld), all in-range and just-outside coordinates',
-              'thorough': 'all grid shapes with extents 0..7 (512 DiscreteWorld, 7 LineWorld, 49 GridWorld), all in-range and just-outside coordinates'}
+              'thorough': 'all grid shapes with extents 0..10 (1331 DiscreteWorld, 10 LineWorld, 100 GridWorld), all in-range and just-outside coordinates'}
 
 
 def shapes(n):
